@@ -700,6 +700,24 @@ def _join_replay(clause, model):
                             for e in old + [x for x in new if x is not nb]:
                                 if e.size and nb.offset < e.offset + e.size and e.offset < nb.offset + nb.size:
                                     bad.append("%s: created block %d+%d overlaps the block %d+%d" % (desc, nb.offset, nb.size, e.offset, e.size))
+    # four-byte nops (AArch64 / MIPS): the padding is counted in BYTES, put in as whole nops
+    nop4 = bytes.fromhex("1f2003d5")
+    for bnd in (1, 8, 16, 32):
+        for extra in (0, 4):
+            d = G.ByteInterval(contents=bytes(range(1, 5 + extra)), size=4 + extra, address=0x100)
+            db = G.CodeBlock(offset=0, size=4 + extra, byte_interval=d)
+            a = G.ByteInterval(contents=b"\xa1\xa2\xa3\xa4", size=4)
+            ab = G.CodeBlock(offset=0, size=4, byte_interval=a)
+            desc = "code, four-byte nop: destination of %d bytes + interval of 4 bytes aligned %d" % (4 + extra, bnd)
+            try:
+                r = IU.join_byte_intervals([d, a], nop=nop4, alignment={ab: bnd} if bnd > 1 else {}, tables=[])
+            except Exception as ex:     # noqa
+                bad.append("%s: %s: %s" % (desc, type(ex).__name__, str(ex)[:50]))
+                continue
+            pad = (-(0x100 + 4 + extra)) % bnd
+            want = bytes(range(1, 5 + extra)) + nop4 * (pad // 4) + b"\xa1\xa2\xa3\xa4"
+            if bytes(r.contents) != want or r.size != len(want) or (ab.offset, ab.size) != (4 + extra + pad, 4):
+                bad.append("%s: contents %s size %d, block at %d; expected %s size %d, block at %d" % (desc, bytes(r.contents).hex(), r.size, ab.offset, want.hex(), len(want), 4 + extra + pad))
     return {"confirmed": bool(bad), "observed": bad[:5]}
 
 
@@ -742,7 +760,34 @@ def join_frame_harness(ctx):
               note="%s, nop=%r: %s" % (which, nop, bytes(r.contents).hex() if r is not None else err))
 
 
+def join_tables_iterable_harness(ctx):
+    """`tables` is declared Iterable: a list, a tuple, a generator or any other single-pass iterable of offset mappings give the same result.
+    Three intervals (so that the mappings are needed more than once), one entry per interval in each of two mappings; real gtirb objects."""
+    import gtirb as G
+    from gtirb_rewriting._adt import OffsetMapping
+    kind = ["list", "tuple", "generator", "iter-of-list", "map-object"][ctx.choose(5, "kind-of-iterable")]
+    with _unshimmed():
+        ivs = [G.ByteInterval(contents=bytes([i] * 4), size=4, address=0x100 if i == 0 else None) for i in range(3)]
+        for bi in ivs:
+            G.DataBlock(offset=0, size=4, byte_interval=bi)
+        oms = [OffsetMapping(), OffsetMapping()]
+        for t, om in enumerate(oms):
+            for i, bi in enumerate(ivs):
+                om[G.Offset(bi, 1 + t)] = "t%d.i%d" % (t, i)
+        tables = {"list": list(oms), "tuple": tuple(oms), "generator": (x for x in oms), "iter-of-list": iter(list(oms)), "map-object": map(lambda x: x, oms)}[kind]
+        r = IU.join_byte_intervals(list(ivs), nop=b"\x90", alignment={}, tables=tables)
+    ctx.cover("enumerated")
+    bad = []
+    for t, om in enumerate(oms):
+        got = {(k.element_id is r, k.displacement): v for k, v in om.items()}
+        want = {(True, 4 * i + 1 + t): "t%d.i%d" % (t, i) for i in range(3)}
+        if got != want:
+            bad.append("mapping %d: %s" % (t, sorted((("destination" if a else "ANOTHER interval"), d, v) for (a, d), v in got.items())))
+    ctx.prove("join_byte_intervals/F/every-mapping-of-the-tables-iterable-is-updated-for-every-interval-whatever-kind-of-iterable-it-is", z3.BoolVal(not bad), note="%s: %s" % (kind, "; ".join(bad)[:300]))
+
+
 def jobs(tier="quick", seed=0):
+    yield Job("K/intervals/join_byte_intervals/tables-iterable", join_tables_iterable_harness, kind="E", func="gtirb_rewriting.intervalutils:join_byte_intervals (tables: any iterable)", expect_cover=("enumerated",))
     yield Job("K/intervals/join_byte_intervals/frame", join_frame_harness, kind="E", func="gtirb_rewriting.intervalutils:join_byte_intervals (frame: arguments not modified)", expect_cover=("enumerated",))
     yield Job("K/intervals/split_byte_interval/geometry", make_split_harness(None, (0, 0)), setup=setup, replay=split_replay, kind="S", func="gtirb_rewriting.intervalutils:split_byte_interval",
               meta={"bound": "0..3 blocks per interval (every integer symbolic: sizes, offsets, address, initialised size; every set iteration order); tables and expressions empty"},
